@@ -436,6 +436,26 @@ def caseLoop (firstOnly : Bool) (p : PK) (dflt : E) : (fuel : Nat) → (kept : L
       | _ => caseLoop firstOnly p dflt fuel (h :: kept) tl
     | _ => .case (appRev kept rest) dflt
 
+/-- the variant with a `reachable_before` flag instead of the identity test `case is ifs[0]` (kept for the witness): the flag
+    is set only for branches the loop VISITS, and the branch right after a popped one is never visited -/
+def caseLoopFlag (p : PK) (dflt : E) : (fuel : Nat) → (reach : Bool) → (kept : List E) → (rest : E) → E
+  | 0, _, kept, rest => .case (appRev kept rest) dflt
+  | fuel + 1, reach, kept, rest =>
+    match rest with
+    | .cons h tl =>
+      match h with
+      | .iff c t _ =>
+        if alwaysTrue c then
+          (if reach then .case (appRev kept rest) dflt else wrapForParent t p)
+        else if alwaysFalse c then
+          match kept, tl with
+          | [], .nil => wrapForParent (if dflt = .absent then .null else dflt) p
+          | _, .cons nxt tl' => caseLoopFlag p dflt fuel reach (nxt :: kept) tl'
+          | _, _ => .case (appRev kept tl) dflt
+        else caseLoopFlag p dflt fuel true (h :: kept) tl
+      | _ => caseLoopFlag p dflt fuel true (h :: kept) tl
+    | _ => .case (appRev kept rest) dflt
+
 def listLen : E → Nat
   | .cons _ t => listLen t + 1
   | _ => 0
